@@ -305,6 +305,68 @@ func (g *Gen) CallProgram() *Chunk {
 			b.Stmts = append(b.Stmts, CallSN("emit", Str("operand"), Bin("==", call, g.simpleVal())))
 		}
 	}
+	// a vararg function with several named parameters entered from Go (pcall, a host
+	// function calling back, a for-in iterator, a coroutine body, a metamethod) with
+	// fewer arguments than names: the missing ones are nil, the given ones stay in place
+	if g.R.Intn(3) == 0 {
+		vf := g.fresh("vf")
+		np := 2 + g.R.Intn(3)
+		params := []string{}
+		ev := []Expr{Str("vf")}
+		for i := 0; i < np; i++ {
+			params = append(params, fmt.Sprintf("q%d", i))
+			ev = append(ev, N(params[i]))
+		}
+		ev = append(ev, CallN("select", Str("#"), &EVararg{}))
+		given := []Expr{}
+		for i, n := 0, 1+g.R.Intn(np-1); i < n; i++ {
+			given = append(given, g.simpleVal())
+		}
+		b.Stmts = append(b.Stmts,
+			&SLocalFunc{Name: vf, F: &Func{Params: params, Vararg: true, Body: Blk(CallSN("emit", ev...), Return(N(params[0]), &EVararg{}))}},
+			CallSN("emit", Str("vf-pcall"), CallN("pcall", append([]Expr{N(vf)}, given...)...)),
+			CallSN("emit", Str("vf-hostcall"), CallN("hostcall", append([]Expr{N(vf)}, given...)...)),
+			CallSN("emit", Str("vf-coroutine"), Call(Call(Dot(N("coroutine"), "wrap"), N(vf)), given...)),
+			CallSN("emit", Str("vf-direct"), Call(N(vf), given...)),
+			&SGenFor{Names: []string{"fv"}, Exprs: []Expr{N(vf), given[0]}, Body: Blk(&SBreak{})},
+			CallSN("emit", Str("vf-index"), Idx(CallN("setmetatable", &ETable{}, &ETable{Items: []TItem{{Kind: TName, Name: "__index", Val: N(vf)}}}), given[0])))
+		g.cover("callee:vararg-with-names-entered-from-go")
+	}
+	// select with negative selectors, down to the one that names the first value
+	if g.R.Intn(3) == 0 {
+		vals := []Expr{}
+		n := 1 + g.R.Intn(4)
+		for i := 0; i < n; i++ {
+			vals = append(vals, g.simpleVal())
+		}
+		k := 1 + g.R.Intn(n)
+		b.Stmts = append(b.Stmts,
+			CallSN("emit", Str("select-negative"), CallN("select", append([]Expr{Num(float64(-k))}, vals...)...)),
+			CallSN("emit", Str("select-negative-all"), CallN("select", append([]Expr{Num(float64(-n))}, vals...)...)),
+			CallSN("emit", Str("select-negative-beyond"), &EParen{X: CallN("pcall", append([]Expr{N("select"), Num(float64(-n - 1))}, vals...)...)}),
+			CallSN("emit", Str("select-negative-dots"), Call(Fn(nil, true, Blk(Return(CallN("select", Un("-", CallN("select", Str("#"), &EVararg{})), &EVararg{})))), vals...)))
+		g.cover("select:negative")
+	}
+	// the values of a resume are the results of the pending yield call and are adjusted
+	// like any call's results: to one in parentheses, to the number of targets otherwise
+	if g.R.Intn(3) == 0 {
+		yield := func(args ...Expr) Expr { return Call(Dot(N("coroutine"), "yield"), args...) }
+		wrap := func(body *Block) Expr { return Call(Dot(N("coroutine"), "wrap"), Fn(nil, false, body)) }
+		many := []Expr{}
+		for i, n := 0, g.R.Intn(5); i < n; i++ {
+			many = append(many, g.simpleVal())
+		}
+		b.Stmts = append(b.Stmts,
+			Local1("pco", wrap(Blk(Return(&EParen{X: yield()})))), &SCall{Call: Call(N("pco"))},
+			CallSN("emit", Str("paren-yield"), CallN("select", Str("#"), Call(N("pco"), many...)), Num(float64(len(many)))),
+			Local1("pco3", wrap(Blk(&SLocal{Names: []string{"a", "b"}, Exprs: []Expr{yield()}}, Return(N("a"), N("b"), &EParen{X: yield(N("a"))})))), &SCall{Call: Call(N("pco3"))},
+			CallSN("emit", Str("paren-yield-mixed"), Call(N("pco3"), many...)),
+			CallSN("emit", Str("paren-yield-mixed2"), Call(N("pco3"), many...)),
+			Local1("pco4", wrap(Blk(Local1("t", &ETable{Items: []TItem{{Kind: TPos, Val: &EParen{X: yield()}}, {Kind: TPos, Val: yield(Num(0))}}}), Return(Idx(N("t"), Num(1)), Idx(N("t"), Num(2)), Idx(N("t"), Num(3)), CallN("hostret", Num(1), &EParen{X: yield(Num(1))}))))),
+			&SCall{Call: Call(N("pco4"))},
+			CallSN("emit", Str("paren-yield-constructor"), Call(N("pco4"), many...), Call(N("pco4"), many...), Call(N("pco4"), many...)))
+		g.cover("yield:results-adjusted-like-a-call")
+	}
 	// tiny callees (no temporaries at all) reached through tail calls from fixed-arity and vararg callers
 	{
 		t1, t2, t3, t4 := g.fresh("tiny"), g.fresh("tiny"), g.fresh("tiny"), g.fresh("tiny")
@@ -342,7 +404,31 @@ func (g *Gen) CallProgram() *Chunk {
 	// proper tail calls: deep self and mutual recursion
 	depth := []int{1000, 20000, 100000}[g.R.Intn(3)]
 	lp := g.fresh("loop")
-	switch g.R.Intn(5) {
+	switch g.R.Intn(7) {
+	case 5:
+		// the tail-calling function created closures over its own locals and parameters first
+		b.Stmts = append(b.Stmts,
+			&SLocalFunc{Name: lp, F: &Func{Params: []string{"n", "acc"}, Body: Blk(
+				Local1("step", Num(2)),
+				Local1("cb", Fn(nil, false, Blk(Return(Bin("+", N("acc"), N("step")))))),
+				&SIf{Conds: []Expr{Bin("==", N("n"), Num(0))}, Blocks: []*Block{Blk(Return(N("acc")))}},
+				&SDo{Body: Blk(Local1("inner", N("n")), Local1("cb2", Fn(nil, false, Blk(Return(N("inner"))))),
+					&SIf{Conds: []Expr{Bin("==", Bin("%", N("n"), Num(3)), Num(0))}, Blocks: []*Block{Blk(Return(Call(N(lp), Bin("-", Call(N("cb2")), Num(1)), Call(N("cb")))))}})},
+				Return(Call(N(lp), Bin("-", N("n"), Num(1)), Call(N("cb")))),
+			)}},
+			CallSN("emit", Str("tail-after-captures"), Call(N(lp), Num(float64(depth)), Num(0))))
+		g.cover("tail:after-captured-locals")
+	case 6:
+		// continuation-passing: every step builds the continuation of the next
+		b.Stmts = append(b.Stmts,
+			&SLocalFunc{Name: lp, F: &Func{Params: []string{"n", "k"}, Body: Blk(
+				&SIf{Conds: []Expr{Bin("==", N("n"), Num(0))}, Blocks: []*Block{Blk(Return(Call(N("k"), Num(0))))}},
+				Return(Call(N(lp), Bin("-", N("n"), Num(1)), Fn([]string{"v"}, false, Blk(
+					&SIf{Conds: []Expr{Bin("==", Bin("%", N("n"), Num(1000)), Num(0))}, Blocks: []*Block{Blk(Return(Call(N("k"), Bin("+", N("v"), Num(1)))))}},
+					Return(Call(N("k"), N("v"))))))),
+			)}},
+			CallSN("emit", Str("tail-cps"), Call(N(lp), Num(float64(depth)), Fn([]string{"v"}, false, Blk(Return(N("v"), Str("done")))))))
+		g.cover("tail:continuation-passing")
 	case 0:
 		b.Stmts = append(b.Stmts,
 			&SLocalFunc{Name: lp, F: &Func{Params: []string{"n", "acc"}, Body: Blk(
